@@ -90,6 +90,8 @@ pub enum Out {
     Val(Vec<u8>),
     None,
     Panic,
+    /// refused with an error value (the code identifies the variant)
+    Refused(u8),
     /// the harness itself cannot perform the request (bad script): a tool error, never a verdict
     Bad(String),
 }
@@ -102,6 +104,7 @@ impl Out {
             Out::Val(b) => json!({"k":"v","v":b}),
             Out::None => json!({"k":"n","v":[]}),
             Out::Panic => json!({"k":"p","v":[]}),
+            Out::Refused(c) => json!({"k":"p","v":[c]}),
             Out::Bad(m) => json!({"k":"bad","v":[],"msg":m}),
         }
     }
